@@ -477,6 +477,10 @@ func mkItem(o *ref.Obj) *Item {
 func (w *world) user(pt, pid, field string) (*User, error) {
 	w.called(pid + "/" + pt + "." + field)
 	o := w.Resolve(pt, pid, field, nil)
+	if o.K == ref.KErrVal {
+		// a resolver that fails after it built (part of) its result and returns both
+		return mkUser(o.Obj), errBoom
+	}
 	if done, err := outErr(o); done {
 		return nil, err
 	}
